@@ -86,7 +86,43 @@ func genC14Pair(p *Plan, r *RNG) {
 	p.QuietNS = 10 * sec
 }
 
+// genC14ManyPeers: a client that talks to well over a hundred peers (distinct IP addresses): the
+// periodic refresh has that many permissions to renew. Afterwards a datagram from another port
+// of one of those hosts - no channel covers it, only the permission - must still get through.
+func genC14ManyPeers(p *Plan, r *RNG) {
+	baseSrvConfig(p, r)
+	p.Flavor = "e2e-manypeers"
+	p.Cfg.LatCSns = int64(r.Range(1, 30))*ms + 3
+	p.Cfg.LatSPns = int64(r.Range(1, 20))*ms + 5
+	p.Cfg.Extra = map[string]int64{}
+	p.Cfg.AllocLifeS = 3600
+	p.Clients = []ClientSpec{{ID: "c1", Addr: "10.0.1.1:4000", User: "u1", Pass: "pw-one", Kind: "real"}}
+	np := r.PickInt([]int{60, 120, 126, 140, 200})
+	for i := 0; i < np; i++ {
+		p.Peers = append(p.Peers, PeerSpec{ID: fmt.Sprintf("p%d", i+1), Addr: fmt.Sprintf("10.0.%d.%d:%d", 2+i/200, 1+i%200, 5000+i)})
+	}
+	p.Ops = append(p.Ops, Op{Actor: "c1", Kind: "alloc", At: gap(50 * ms)})
+	p.Ops = append(p.Ops, Op{Actor: "", Kind: "wait", At: gap(sec)})
+	for i := 0; i < np; i++ {
+		p.Ops = append(p.Ops, Op{Actor: "c1", Kind: "writeto", At: gap(int64(r.Range(20, 120)) * ms), A: OpArgs{Peer: p.Peers[i].Addr, Len: 30}})
+	}
+	for k := r.Range(2, 5); k > 0; k-- {
+		pi := r.Intn(np)
+		o := Op{Actor: p.Peers[pi].ID, Kind: "peer_send", At: gap(int64(r.Range(200, 700)) * sec), A: OpArgs{Target: "c1", Len: r.Range(20, 100)}}
+		if r.Chance(2, 3) {
+			o.A.N = 6000 + r.Intn(3)
+		}
+		p.Ops = append(p.Ops, o)
+		p.Ops = append(p.Ops, Op{Actor: "c1", Kind: "writeto", At: gap(int64(r.Range(1, 5)) * sec), A: OpArgs{Peer: p.Peers[r.Intn(np)].Addr, Len: 40}})
+	}
+	p.QuietNS = 10 * sec
+}
+
 func genC14(p *Plan, r *RNG) {
+	if r.Chance(1, 30) {
+		genC14ManyPeers(p, r)
+		return
+	}
 	if r.Chance(1, 6) {
 		genC14LatePeer(p, r)
 		return
